@@ -43,7 +43,8 @@ RULES = {
     "R2-ppo": "ppo_loss == -mean(min(rho*A, clip(rho,1-c,1+c)*A)) + 0.5*mean((R-V)^2) - 0.01*mean(H); rho = exp(logp - logp_old); logp_old fixed before the epoch loop from the same data",
     "R3-dpg": "deterministic policy gradient losses == -mean(Q(o, pi(o))) (DDPG/TD3, TD7-SALE, MR.Q incl. the pre-activation penalty); differentiated argument is the actor",
     "R4-sac": "actor loss == mean(alpha*log pi(a|o) - Q(o,a)), a ~ pi(o); temperature loss == mean(-alpha()*(log pi + target_entropy)), alpha() = exp(log_alpha), differentiated w.r.t. log_alpha only",
-    "R5-value-shapes": "the PPO value term subtracts arrays of equal rank (no (N,)-(N,1) broadcast)",
+    "R5-value-shapes": "the PPO value term subtracts arrays of equal rank (no (N,)-(N,1) broadcast); the PPO and SAC actor objectives, evaluated on small arrays with a critic "
+                       "that returns (N,) and one that returns (N,1), have the documented value (the critic's output is one value per sample in both conventions)",
     "R6-clipped-pair": "min Q / mean Q of the clipped double-Q wrapper (SAC, TD3, TD7 actor losses) is taken per sample: for both critic output conventions (N,) and (N,1), "
                        "__call__ returns minimum(q1(x), q2(x)) and mean returns 0.5*(q1(x) + q2(x)) in the heads' own shape (no reduction over the batch)",
 }
@@ -466,11 +467,128 @@ def check_gradient_path(ck, repo, nfg, q, rule):
           "" if not blocked else f"the gradient with respect to {sorted(actors)} does not pass through `{blocked[0][1:90]}` (stop_gradient), the documented objective differentiates every occurrence", loc(fn._module, fn))
 
 
+# ---- one more spelling of a call: signature binding ----------------------------------------------------------------------------------
+class _NFSig(NF):
+    """The normal-form engine, with keywords of a method call on an ANNOTATED PARAMETER bound by the method's signature:
+    `encoder.encode_zsa(zs=z, action=a)` with `encoder: ModelBasedEncoder` is `encoder.encode_zsa(z, a)`.  The receiver must be a
+    parameter of the function that is being read (never rebound there), its annotation a class of the package that has the method,
+    and the class and every subclass of it in the package must agree on the positional parameters (the object may be any of them)."""
+
+    def _sig_of(self, sc, at, recv: str, meth: str):
+        cfg = getattr(sc, "cfg", None)
+        fn = getattr(cfg, "fn", None)
+        if fn is None or at is None or recv == "self":
+            return None
+        ds = cfg.defs_of(at, recv)
+        if len(ds) != 1 or ds[0].kind != "param":
+            return None
+        ann = next((a.annotation for a in fn.args.posonlyargs + fn.args.args + fn.args.kwonlyargs if a.arg == recv), None)
+        if not isinstance(ann, (ast.Name, ast.Attribute)):
+            return None
+        try:
+            cq = self.repo.resolve_expr(getattr(fn, "_module", None) or sc.mi, ann)
+            if not (cq and cq.startswith(self.repo.PKG + ".")):
+                return None
+            self.repo.cls(cq)
+            sigs = set()
+            for c in [cq] + list(self.repo.subclasses(cq)):
+                m = self.repo.method(c, meth)
+                if m is None:
+                    return None
+                a = m[1].args
+                if a.vararg or a.kwarg or a.posonlyargs or any(isinstance(d, ast.Name) and d.id in ("staticmethod", "classmethod", "property") for d in m[1].decorator_list):
+                    return None
+                sigs.add(tuple(x.arg for x in a.args[1:]))
+        except Exception:
+            return None
+        return list(sigs.pop()) if len(sigs) == 1 else None
+
+    def _args(self, e, sc, at, depth):
+        args, kws = super()._args(e, sc, at, depth)
+        f = e.func
+        if kws and "**" not in kws and isinstance(f, ast.Attribute) and isinstance(f.value, ast.Name) and not any(isinstance(a, ast.Starred) for a in e.args):
+            ps = self._sig_of(sc, at, f.value.id, f.attr)
+            if ps is not None and len(args) <= len(ps) and all(k in ps[len(args):] for k in kws):
+                args, kws = list(args), dict(kws)
+                while len(args) < len(ps) and ps[len(args)] in kws:
+                    args.append(kws.pop(ps[len(args)]))
+        return args, kws
+
+
+# ---- partial application of the differentiated loss -----------------------------------------------------------------------------------
+def _partial_call(repo, mi, e):
+    return isinstance(e, ast.Call) and isinstance(e.func, (ast.Name, ast.Attribute)) and repo.resolve_expr(mi, e.func) == "functools.partial"
+
+
+def _through_partial(repo, nf, fn, mi, site):
+    """partial(L, *a, **k)(*b, **k2) is L(*a, *b, **k, **k2): a gradient site whose differentiated function is such a partial
+    application (written in place, or bound once to a local name) is rewritten in terms of L - loss, argnums in L's positions and the
+    application with all arguments.  The partial's arguments are evaluated where it is made: they are read at the application only
+    when the same definitions of every name in them reach both places (else the site is left as it is: not read)."""
+    loss = site["loss"]
+    cfg = nf.cfg_of(fn)
+    app = getattr(site["app"], "_original", site["app"])
+    try:
+        at = cfg.node_of(app).id
+    except (KeyError, AttributeError):
+        return site
+    if isinstance(loss, ast.Name):
+        ds = cfg.defs_of(at, loss.id)
+        if len(ds) != 1 or ds[0].kind != "assign" or not _partial_call(repo, mi, ds[0].value):
+            return site
+        pc, made = ds[0].value, ds[0].node
+    elif _partial_call(repo, mi, loss):
+        tr = site.get("transform")
+        try:
+            made = cfg.node_of(tr).id if tr is not None else at
+        except (KeyError, AttributeError):
+            return site
+        pc = loss
+    else:
+        return site
+    if not pc.args or any(isinstance(a, ast.Starred) for a in pc.args) or any(k.arg is None for k in pc.keywords) \
+            or any(isinstance(a, ast.Starred) for a in site["app"].args) or any(k.arg is None for k in site["app"].keywords):
+        return site
+    inner, pargs = pc.args[0], list(pc.args[1:])
+    if not isinstance(inner, (ast.Name, ast.Attribute)):
+        return site
+    lq = repo.resolve_expr(mi, inner)
+    if not (lq and lq.startswith(repo.PKG + ".") and repo.has(lq)):
+        return site
+    try:
+        lp = positional_params(repo.func(lq))
+    except Exception:
+        return site
+    pk = {k.arg for k in pc.keywords}
+    ak = {k.arg for k in site["app"].keywords}
+    n_app = len(site["app"].args)
+    if len(pargs) + n_app > len(lp) or (pk & ak) or any(k in lp[:len(pargs) + n_app] for k in pk | ak):
+        return site
+    if made != at:
+        for x in [n for a in pargs + [k.value for k in pc.keywords] for n in ast.walk(a) if isinstance(n, ast.Name)]:
+            if {(d.node, d.name) for d in cfg.defs_of(made, x.id)} != {(d.node, d.name) for d in cfg.defs_of(at, x.id)}:
+                return site
+    nums = [k + len(pargs) for k in site["argnums"]]
+    if any(k >= len(pargs) + n_app for k in nums):
+        return site
+    new_args = pargs + list(site["app"].args)
+    syn = ast.copy_location(ast.Call(func=site["app"].func, args=new_args, keywords=list(pc.keywords) + list(site["app"].keywords)), site["app"])
+    syn._parent = getattr(site["app"], "_parent", None)
+    syn._original = app
+    s2 = dict(site)
+    s2.update({"app": syn, "loss": inner, "argnums": nums, "diff": [new_args[j] for j in nums], "partial": pc})
+    return s2
+
+
+def _grad_sites(repo, nf, fn, mi):
+    return [_through_partial(repo, nf, fn, mi, s) for s in grad_sites(repo, fn, mi)]
+
+
 def run(ck, repo: Repo, tier: str):
-    nf = NF(repo, inline_depth=4)
+    nf = _NFSig(repo, inline_depth=4)
     nf.expand_squares = False
     res = Resolver(repo)
-    nfg = NF(repo, inline_depth=4)
+    nfg = _NFSig(repo, inline_depth=4)
     nfg.expand_squares = False
     nfg.track_sg = True
     for q, (rule, spec) in FORMULAS.items():
@@ -523,7 +641,7 @@ def run(ck, repo: Repo, tier: str):
         # ---- differentiated argument is the actor ---------------------------------------------------------------------
         fn = repo.func(uq)
         mi = fn._module
-        sites = [s for s in grad_sites(repo, fn, mi)]
+        sites = _grad_sites(repo, nf, fn, mi)
         ck.need(len(sites) == 1, f"{uq}: expected one gradient site, found {len(sites)}")
         s = sites[0]
         got_loss = repo.resolve_expr(mi, s["loss"]) if isinstance(s["loss"], (ast.Name, ast.Attribute)) else None
@@ -554,6 +672,7 @@ def run(ck, repo: Repo, tier: str):
     ck.guard(_a2c_normalised, ck, repo, nf)
     ck.guard(_ppo_update, ck, repo, nf)
     ck.guard(_value_shapes, ck, repo)
+    _value_worlds(ck, repo)
     _clipped_pair(ck, repo)
 
 
@@ -710,6 +829,10 @@ _A_UNARY = {"exp": math.exp, "log": math.log, "abs": abs, "tanh": math.tanh, "sq
             "softplus": lambda v: math.log1p(math.exp(v)), "relu": lambda v: max(v, 0.0), "zeros_like": lambda v: 0.0, "ones_like": lambda v: 1.0, "negative": lambda v: -v}
 _A_REDUCE = {"min": min, "max": max, "amin": min, "amax": max, "sum": sum, "mean": lambda v: sum(v) / len(v)}
 
+# every function name the array evaluator below carries out itself
+_A_COMPUTED = set(_A_UNARY) | set(_A_REDUCE) | {"pow", "minimum", "maximum", "clip", "concatenate", "concat", "stack", "hstack", "vstack", "squeeze", "ravel", "flatten", "reshape",
+                                                "expand_dims", "subscript", "T", "Lt", "LtE", "where", "attr", "proj"}
+
 
 class _ArrayPoint:
     """Evaluates a normal form on concrete small arrays.  ``leaf(atom, meta)`` supplies the arrays of the quantities that are not
@@ -811,7 +934,14 @@ class _ArrayPoint:
             return _Arr((len(x.data),), x.data)
         if f == "reshape" and len(args) == 2 and not kws:
             x = self.poly(args[0])
-            tgt = [self._int(t, "shape") for t in (args[1].elems if args[1].elems is not None else [args[1]])]
+            like = args[1].single_atom() if args[1].elems is None else None
+            lm = self.nf.meta.get(like) if like else None
+            if lm and lm.get("fn") == "attr" and like.endswith(".shape") and len(lm.get("args", [])) == 1 and like == lm["args"][0].canon() + ".shape":
+                tgt = list(self.poly(lm["args"][0]).shape)          # x.reshape(y.shape): the shape y has in this world
+                if not tgt:
+                    raise _NotComputable("reshape to the shape of a scalar")
+            else:
+                tgt = [self._int(t, "shape") for t in (args[1].elems if args[1].elems is not None else [args[1]])]
             if tgt.count(-1) > 1 or any(t < -1 or t == 0 for t in tgt):
                 raise _NotComputable("reshape target")
             known = math.prod(t for t in tgt if t != -1)
@@ -910,6 +1040,79 @@ def _clipped_pair(ck, repo):
                           + (": the reduction runs over the batch as well, every sample gets the same value" if len(g.data) < len(want.data) else ""))
             ck.ob("R6-clipped-pair", qual, "per-sample-in-both-conventions", not bad, f"return {got.canon()[:110]}   [" + ", ".join(f"{c}: {'same' if s_ else 'differs'}" for c, s_, _, _ in verdicts) + "]",
                   detail, loc(fn._module, fn))
+        ck.guard(_one)
+
+
+# (loss, recorded name of the critic parameter whose output may be (N,) or (N,1))
+VALUE_WORLDS = [("rl_blox.algorithm.ppo.ppo_loss", "critic"), ("rl_blox.algorithm.sac.sac_actor_loss", "q")]
+
+
+def _value_worlds(ck, repo):
+    """R5, on concrete arrays: the objective is evaluated with a critic that returns (N,) and with one that returns (N,1) (the same
+    N numbers), every other per-sample quantity being an (N,) vector and the documented scalars numbers.  The documented formula,
+    evaluated with the critic's values as one number per sample, is the reference.  A different value in one of the conventions is a
+    witness (a broadcast to (N,N), one sample's value used for the whole batch); whatever the small array evaluator does not carry
+    out is not read."""
+    from ..nf import STRIP
+    nfa = _NFSig(repo, inline_depth=4, strip=set(STRIP) - {"squeeze", "flatten", "ravel"})
+    nfa.keep_layout = {"reshape"}
+    nfa.expand_squares = False
+    for q, critic in VALUE_WORLDS:
+        def _one(q=q, critic=critic):
+            fn = repo.func(q)
+            mi = fn._module
+            env = _env(fn)
+            ren = _renames(repo, q)
+            params = set(param_names(fn))
+            got = _return_poly(nfa, q, env)
+            if got.elems is not None:
+                got = got.elems[0]
+            sc0 = Scope(None, mi, env, q)
+            want = nfa.poly(_spec(FORMULAS[q][1], ren), sc0, None)
+            scalars = {nfa.poly(_spec(t, ren), sc0, None).canon() for t in SCALARS.get(q, ())}
+            if got.elems is not None or _UNREAD.search(got.canon()):
+                raise AnalysisError(f"{q}: `{got.canon()[:100]}` contains a part that was not read (unrecognised form)")
+            heads = {a for a in _reachable(nfa, got) | _reachable(nfa, want) if (nfa.meta.get(a) or {}).get("fn", "") == ren[critic]}
+            if len(heads) != 1 or not heads <= _reachable(nfa, got):
+                raise AnalysisError(f"{q}: the application of `{ren[critic]}` whose output convention varies is not identified ({len(heads)} different applications) (unrecognised form)")
+            head = next(iter(heads))
+
+            def leaves(shape):
+                def leaf(a, meta):
+                    f_ = (meta or {}).get("fn", "")
+                    if f_ and (f_ in _A_COMPUTED or f_.split(".")[0] not in params):
+                        return None          # a function of the library / of the package: computed or not read (`clip(...)` is the library's also with a parameter `clip`)
+                    r = random.Random(f"c12|worlds|{a}")
+                    if a in scalars:
+                        return _a_scalar(r.uniform(0.3, 1.7))
+                    data = [r.choice((-1.0, 1.0)) * r.uniform(0.3, 1.7) for _ in range(_PAIR_N)]
+                    return _Arr(shape if a == head else (_PAIR_N,), data)
+                return leaf
+            # the verdict needs no reference: the same N numbers in the two layouts must give the same objective
+            results, unread = [], []
+            for conv, shape in (("(N,)", (_PAIR_N,)), ("(N,1)", (_PAIR_N, 1))):
+                try:
+                    results.append((conv, _ArrayPoint(nfa, leaves(shape)).poly(got)))
+                except AnalysisError:
+                    raise
+                except Exception as e:       # anything the small array evaluator does not carry out is "not read", never a verdict
+                    unread.append(f"critic output {conv}: {e}")
+            if unread:
+                raise AnalysisError(f"{q}: `{got.canon()[:100]}` is not computed on arrays ({'; '.join(unread)}) (unrecognised form)")
+            (c1, g1), (c2, g2) = results
+            same = g1.shape == g2.shape and all(abs(x - y) <= 1e-9 * max(1.0, abs(x), abs(y)) for x, y in zip(g1.data, g2.data))
+            detail = ""
+            if not same:
+                off = ""
+                try:      # which of the two is the documented value (for the message only)
+                    w = _ArrayPoint(nfa, leaves((_PAIR_N,))).poly(want)
+                    eq = lambda g: g.shape == w.shape and all(abs(x - y) <= 1e-9 * max(1.0, abs(x), abs(y)) for x, y in zip(g.data, w.data))
+                    off = "".join(f"; with {c} it is {'the' if eq(g) else 'not the'} documented per-sample value" for c, g in results)
+                except Exception:
+                    pass
+                detail = (f"the same {_PAIR_N} critic values give {_a_show(g1)} when `{ren[critic]}` returns {c1} and {_a_show(g2)} when it returns {c2}{off}: "
+                          f"in one convention the critic's output is not used as one value per sample (broadcast against the batch / one sample's value for all)")
+            ck.ob("R5-value-shapes", q, "same-value-in-both-conventions", same, f"{got.canon()[:110]}   [{c1}: {_a_show(g1)}, {c2}: {_a_show(g2)}]", detail, loc(mi, fn))
         ck.guard(_one)
 
 
@@ -1099,7 +1302,7 @@ def _pg_weights(ck, repo, nf):
             cfg = nf.cfg_of(fn)
             env = _env(fn)
             ren = _renames(repo, q)
-            gs_ = grad_sites(repo, fn, mi)
+            gs_ = _grad_sites(repo, nf, fn, mi)
             if len(gs_) != 1:
                 raise AnalysisError(f"{q}: expected one gradient site, found {len(gs_)} (anchor vanished)")
             site = gs_[0]
@@ -1202,7 +1405,7 @@ def _ppo_update(ck, repo, nf):
     mi = fn._module
     cfg = nf.cfg_of(fn)
     env = _env(fn)
-    sites = grad_sites(repo, fn, mi)
+    sites = _grad_sites(repo, nf, fn, mi)
     ck.need(len(sites) == 1, f"{q}: expected one gradient site, found {len(sites)}")
     site = sites[0]
     if not (isinstance(site["loss"], (ast.Name, ast.Attribute)) and repo.resolve_expr(mi, site["loss"]) == lq):
@@ -1432,4 +1635,47 @@ MUTANTS += [
 ]
 BENIGN += [
     {"id": "c12-b-a2c-closure-step", "file": _A2C, "find": _A2C_LOOP, "replace": _A2C_CLOSURE},
+]
+
+# the differentiated function is a partial application of the documented loss (partial(L, *a)(*b) is L(*a, *b)); keywords of a method
+# call on an annotated parameter are bound by the method's signature
+_AC = "rl_blox/algorithm/actor_critic.py"
+_AC_SITE = "    return nnx.value_and_grad(\n        stochastic_policy_gradient_pseudo_loss, argnums=3\n    )(observations, actions, weights, policy)"
+_DDPG_SITE = "    actor_loss_value, grads = nnx.value_and_grad(\n        deterministic_policy_gradient_loss, argnums=2\n    )(q, observation, policy)"
+_MRQ = "rl_blox/algorithm/mrq.py"
+_MRQ_ZSA = "    zsa = encoder.encode_zsa(zs, action)"
+MUTANTS += [
+    # the partial application fixes observation and action in each other's place
+    {"id": "c12-ac-partial-roles-swapped", "file": _AC, "rule": "R1", "find": _AC_SITE,
+     "replace": "    objective = partial(stochastic_policy_gradient_pseudo_loss, actions, observations, weights)\n    return nnx.value_and_grad(objective)(policy)"},
+    # the policy is fixed by keyword and the remaining (first free) argument - the weights - is differentiated
+    {"id": "c12-ac-partial-differentiates-weights", "file": _AC, "rule": "R1", "find": _AC_SITE,
+     "replace": "    objective = partial(stochastic_policy_gradient_pseudo_loss, observations, actions, policy=policy)\n    return nnx.value_and_grad(objective)(weights)"},
+    {"id": "c12-ddpg-partial-differentiates-observation", "file": "rl_blox/algorithm/ddpg.py", "rule": "R3", "find": _DDPG_SITE,
+     "replace": "    actor_loss_value, grads = nnx.value_and_grad(partial(deterministic_policy_gradient_loss, q), argnums=0)(observation, policy)"},
+    {"id": "c12-mrq-zsa-keywords-crossed", "file": _MRQ, "rule": "R3", "find": _MRQ_ZSA, "replace": "    zsa = encoder.encode_zsa(zs=action, action=zs)"},
+]
+BENIGN += [
+    {"id": "c12-b-ac-partial-local", "file": _AC, "find": _AC_SITE,
+     "replace": "    objective = partial(stochastic_policy_gradient_pseudo_loss, observations, actions, weights)\n    loss_and_grad = nnx.value_and_grad(objective)\n    return loss_and_grad(policy)"},
+    {"id": "c12-b-ac-partial-keywords", "file": _AC, "find": _AC_SITE,
+     "replace": "    return nnx.value_and_grad(partial(stochastic_policy_gradient_pseudo_loss, observations, actions), argnums=1)(weights, policy)"},
+    {"id": "c12-b-ddpg-partial-in-place", "file": "rl_blox/algorithm/ddpg.py", "find": _DDPG_SITE,
+     "replace": "    actor_loss_value, grads = nnx.value_and_grad(partial(deterministic_policy_gradient_loss, q), argnums=1)(observation, policy)"},
+    {"id": "c12-b-mrq-zsa-keywords-any-order", "file": _MRQ, "find": _MRQ_ZSA, "replace": "    zsa = encoder.encode_zsa(action=action, zs=zs)"},
+]
+
+# R5 on arrays: the critic's output in the conventions (N,) and (N,1)
+_PPO_VALUES = "    values = critic(observations).flatten()"
+_SAC_Q = "    q_value = q(obs_act).squeeze()\n    actor_loss"
+MUTANTS += [
+    # a reduction over the last axis: the unit axis of an (N,1) critic, the batch of an (N,) critic
+    {"id": "c12-ppo-values-reduced-over-last-axis", "file": _PPO, "rule": "R5", "find": _PPO_VALUES, "replace": "    values = critic(observations).max(axis=-1)"},
+    {"id": "c12-sac-q-reduced-over-last-axis", "file": _SAC, "rule": "R5", "find": _SAC_Q, "replace": "    q_value = jnp.min(q(obs_act), axis=-1)\n    actor_loss"},
+]
+BENIGN += [
+    {"id": "c12-b-ppo-values-ravel-local", "file": _PPO, "find": _PPO_VALUES, "replace": "    predicted = critic(observations)\n    values = jnp.ravel(predicted)"},
+    {"id": "c12-b-ppo-values-like-returns", "file": _PPO, "find": _PPO_VALUES, "replace": "    values = critic(observations).reshape(returns.shape)"},
+    {"id": "c12-b-sac-q-ravel", "file": _SAC, "find": _SAC_Q, "replace": "    q_value = q(obs_act).ravel()\n    actor_loss"},
+    {"id": "c12-b-sac-q-reshape-like-logp", "file": _SAC, "find": _SAC_Q, "replace": "    q_value = q(obs_act).reshape(-1)\n    actor_loss"},
 ]
